@@ -69,6 +69,7 @@ def pytask_collect(session: Session) -> bool:
     _collect_from_paths(session)
     _collect_from_tasks(session)
     _collect_not_collected_tasks(session)
+    _fail_tasks_with_duplicated_ids(session)
 
     session.tasks.extend(
         i.node
@@ -178,6 +179,30 @@ def _collect_not_collected_tasks(session: Session) -> None:
                 ),
             )
             session.collection_reports.append(report)
+
+
+def _fail_tasks_with_duplicated_ids(session: Session) -> None:
+    """Turn reports of tasks which share their id with another task into failures.
+
+    For example, a function ``task_x`` and a function decorated with
+    ``@task(name="task_x")`` in the same module have the same id. Only one of them would
+    be executed.
+
+    """
+    reports = [
+        r
+        for r in session.collection_reports
+        if r.outcome == CollectionOutcome.SUCCESS and isinstance(r.node, PTask)
+    ]
+    duplicated = find_duplicates(r.node.signature for r in reports)  # type: ignore[union-attr]
+    for report in reports:
+        if report.node.signature in duplicated:  # type: ignore[union-attr]
+            msg = (
+                f"The task id {report.node.name!r} is used by more than one task. "  # type: ignore[union-attr]
+                "Task ids must be unique."
+            )
+            report.outcome = CollectionOutcome.FAIL
+            report.exc_info = (ValueError, ValueError(msg), None)
 
 
 @hookimpl
